@@ -38,6 +38,8 @@ fn get_server_values_impl(socket: &mut UdpSocket) -> GDResult<HashMap<String, St
     let mut received_query_id: Option<usize> = None;
     let mut parts: Vec<usize> = Vec::new();
     let mut is_finished = false;
+    // number of parts the response consists of, known once the part carrying "final" has arrived
+    let mut parts_total: Option<usize> = None;
 
     let mut server_values = HashMap::new();
 
@@ -63,11 +65,12 @@ fn get_server_values_impl(socket: &mut UdpSocket) -> GDResult<HashMap<String, St
             server_values.insert(key, value);
         }
 
-        is_finished = server_values.remove("final").is_some();
+        let is_final = server_values.remove("final").is_some();
 
         let query_data = server_values.get("queryid");
 
         let mut part = parts.len(); // if the part number isn't provided, it's value is the parts length
+        let mut is_part_numbered = false;
         let mut query_id = None;
         if let Some(qid) = query_data {
             let split: Vec<&str> = qid.split('.').collect();
@@ -75,7 +78,10 @@ fn get_server_values_impl(socket: &mut UdpSocket) -> GDResult<HashMap<String, St
             query_id = Some(split[0].parse().map_err(|e| TypeParse.context(e))?);
             match split.len() {
                 1 => (),
-                2 => part = split[1].parse().map_err(|e| TypeParse.context(e))?,
+                2 => {
+                    part = split[1].parse().map_err(|e| TypeParse.context(e))?;
+                    is_part_numbered = true;
+                }
                 _ => Err(GDErrorKind::PacketBad)?, /* the queryid can't be splitted in more than 2
                                                     * elements */
             };
@@ -93,6 +99,16 @@ fn get_server_values_impl(socket: &mut UdpSocket) -> GDResult<HashMap<String, St
             true => Err(GDErrorKind::PacketBad)?,
             false => parts.push(part),
         }
+
+        // parts can arrive in any order: the final part (numbered from 1) tells how many there are
+        if is_final {
+            parts_total = Some(match is_part_numbered {
+                true => part,
+                false => parts.len(),
+            });
+        }
+
+        is_finished = parts_total.map_or(false, |total| parts.len() >= total);
     }
 
     Ok(server_values)
